@@ -231,6 +231,87 @@ func runC15(outDir string, seed int64, tier string) {
 		}
 		_ = sol
 	}
+	// text as a list (of characters, of codes) into typed slices: exactly the characters of the text, whatever
+	// the list was built from (a double-quoted literal, a placeholder string, atom_chars/atom_codes, brackets)
+	for _, flag := range []string{"chars", "codes"} {
+		pt := prolog.New(nil, nil)
+		_ = pt.Exec(fmt.Sprintf(":- set_prolog_flag(double_quotes, %s).", flag))
+		for _, s := range []string{"foo", "café", "é日", "日本語", "a😀b", "", "ab\u00e9cd\u00fc", "\u00ff"} {
+			var rs []string
+			var cs []int
+			for _, r := range s {
+				rs = append(rs, string(r))
+				cs = append(cs, int(r))
+			}
+			builder := "atom_chars"
+			if flag == "codes" {
+				builder = "atom_codes"
+			}
+			var brs []string
+			for i := range rs {
+				if flag == "chars" {
+					brs = append(brs, quoteAtom(rs[i]))
+				} else {
+					brs = append(brs, fmt.Sprint(cs[i]))
+				}
+			}
+			sources := []struct {
+				q    string
+				args []interface{}
+			}{
+				{"X = ? .", []interface{}{s}},
+				{"X = " + plEscape(s) + " .", nil},
+				{builder + "(A, ?), " + builder + "(A, X) .", []interface{}{s}}, // through an atom and back
+			}
+			if !strings.Contains(s, "😀") { // the reader rejects that character in a quoted atom
+				sources = append(sources, struct {
+					q    string
+					args []interface{}
+				}{"X = [" + strings.Join(brs, ",") + "] .", nil})
+			}
+			for _, src := range sources {
+				if s == "" && src.args == nil && strings.HasPrefix(src.q, "X = \"") {
+					continue // "" is [] (or '' under atom): not a text list
+				}
+				desc := map[string]interface{}{"text": fmt.Sprintf("double_quotes=%s: %s with %q scanned into typed slices", flag, src.q, s)}
+				sum.Evaluations++
+				sum.count("scan:text-list")
+				check := func(dest string, got interface{}, err error, want interface{}) {
+					if err != nil || fmt.Sprint(got) != fmt.Sprint(want) {
+						fail("scan:text-list:stores-altered-value", map[string]interface{}{"text": desc["text"].(string) + " (" + dest + ")"}, fmt.Sprint(got, " ", err), fmt.Sprint(want))
+					}
+				}
+				if flag == "chars" {
+					var d struct{ X []string }
+					err := pt.QuerySolution(src.q, src.args...).Scan(&d)
+					if len(rs) == 0 {
+						check("[]string", len(d.X), err, 0)
+					} else {
+						check("[]string", d.X, err, rs)
+					}
+					if !strings.Contains(src.q, "(A, ") { // a map destination receives every variable: only X here
+						m := map[string][]string{}
+						err = pt.QuerySolution(src.q, src.args...).Scan(m)
+						check("map[string][]string", len(m["X"]), err, len(rs))
+					}
+				} else {
+					var d struct{ X []int }
+					err := pt.QuerySolution(src.q, src.args...).Scan(&d)
+					if len(cs) == 0 {
+						check("[]int", len(d.X), err, 0)
+					} else {
+						check("[]int", d.X, err, cs)
+					}
+					var d32 struct{ X []int32 }
+					err = pt.QuerySolution(src.q, src.args...).Scan(&d32)
+					check("[]int32", len(d32.X), err, len(cs))
+				}
+				var di struct{ X []interface{} }
+				err := pt.QuerySolution(src.q, src.args...).Scan(&di)
+				check("[]interface{}", len(di.X), err, len(rs))
+			}
+		}
+	}
 	// several list-valued variables of one answer into maps, structs and interface{} destinations: every value
 	// must arrive unaltered whatever the destination shares internally
 	rr := &rng{s: uint64(seed) ^ hashString("C15lists")}
